@@ -582,7 +582,7 @@ func Corpus(thorough bool, yield func(Program)) {
 	F4c(2, yield)
 	F5(yield)
 	F6(yield)
-	C02(thorough, yield)
+	C02Corpus(thorough, yield)
 	F8(false, yield)
 	if thorough {
 		F8(true, yield)
